@@ -370,6 +370,7 @@ Definition estep (cfg : ecfg) (st : estate) (buf : bytes) : res estate eout :=
                    [OSend (v3_tail cfg) false]
             else if rev =? 1 then
               if negb (c_allow_v2 cfg) then fail0 st EProto else
+              if c_sec_enabled cfg then fail0 st ESecurity else
               if (length buf <? 12)%nat then Need else
               let pt := nth 11 buf 0 in
               if negb (v2_compat (c_stype cfg) pt) then fail0 st EProto else
